@@ -358,13 +358,16 @@ func UtxoValidateInsufficientCollateral(
 	if fee == nil {
 		fee = new(big.Int)
 	}
-	minCollateral := new(
+	feeShare := new(
 		big.Int,
 	).Mul(fee, new(big.Int).SetUint64(uint64(tmpPparams.CollateralPercentage)))
-	minCollateral.Div(minCollateral, big.NewInt(100))
-	if totalCollateral.Cmp(minCollateral) >= 0 {
+	// The ledger requires balance * 100 >= fee * collateralPercentage exactly;
+	// dividing first would round the requirement down in the transaction's favour
+	scaledCollateral := new(big.Int).Mul(totalCollateral, big.NewInt(100))
+	if scaledCollateral.Cmp(feeShare) >= 0 {
 		return nil
 	}
+	minCollateral := new(big.Int).Div(feeShare, big.NewInt(100))
 	// Convert to uint64 for error struct (best effort)
 	var providedU, requiredU uint64
 	if totalCollateral.IsUint64() {
